@@ -15,7 +15,7 @@ done
 for p in mutants/revert-*.patch mutants/hand-*.patch; do
   b=$(basename $p .patch)
   case $b in
-    revert-e064eaa|revert-e945df3|revert-e4a7585|revert-73a6d73) id=C05;;
+    revert-e064eaa|revert-e945df3|revert-e4a7585|revert-73a6d73|revert-0122639) id=C05;;
     revert-f159660|revert-8da7e4e|revert-aee587b) id=C07;;
     revert-3a3b978|revert-c805a25|revert-ccf727f|revert-387d087|hand-readterm*|hand-peek*|hand-unreadrune*) id=C19;;
     revert-c16aa82) id=C11;; revert-18138da) id=C04;; revert-de9d3a4) id=C16;;
